@@ -13,7 +13,7 @@ patch -p1 -s < "$SRC/patch.diff" || { echo PATCH-FAILED; rm -rf "$D"; exit 3; }
 TESTS=$(PYTHONPATH=$D/src timeout 900 /venv/bin/python -m pytest -q -p no:cacheprovider tests 2>&1 | tail -1)
 PYTHONPATH=$D/src timeout 300 /venv/bin/python "$SRC/demo.py" >/dev/null 2>&1; DEMO_CHANGED=$?
 cd /verif
-OUT=$(VERIF_REPO="$D" VERIF_NO_EVIDENCE=1 timeout 3000 /venv/bin/python harness/check.py "$PROP" 2>&1 | tail -6 | cut -c1-300)
+OUT=$(VERIF_REPO="$D" VERIF_NO_EVIDENCE=1 timeout 3000 /venv/bin/python harness/check.py "$PROP" 2>&1 | grep -E "^VIOLATION|^KNOWN-FINDING|^C[0-9][0-9] \[" | cut -c1-300)
 RC=$(echo "$OUT" | grep -c "^VIOLATION")
 REPLAY=$(echo "$OUT" | grep "^VIOLATION" | head -1)
 mkdir -p /verif/seeded/$ID
